@@ -22,7 +22,7 @@ from ..effects import Unknown, ceval, summaries
 from ..model import AnalysisError, FuncInfo, dotted, norm_stmt, unparse, walk_no_nested
 from ..norm import NotAffine, affine
 from .c07 import mini_run
-from .common import QUICK, calls_in, kwarg, parents_map
+from .common import QUICK, calls_in, kwarg, named_args, parents_map
 
 EXPLANATION = (
     "Static analysis of the pair-counting path on /repo's current source. R1 normalises the right-hand side of the "
@@ -400,6 +400,12 @@ def rule_r2(prog, res) -> None:
     ok = "ALL_MIDS" in kinds or "ALL_EDGES" in kinds or {"LOW", "HIGH"} <= kinds
     # reduction must be a maximum (over scales and over points)
     red_max = any((isinstance(x, ast.Call) and ((isinstance(x.func, ast.Attribute) and x.func.attr == "max") or (dotted(x.func) or "").split(".")[-1] in ("max", "amax", "maximum"))) for e in exprs for x in ast.walk(e))
+    # … and no minimum anywhere over the converted scales: the smallest of several scales (or of several points) does
+    # not cover the others
+    for e in exprs:
+        for x in ast.walk(e):
+            if isinstance(x, ast.Call) and ((isinstance(x.func, ast.Attribute) and x.func.attr in ("min", "argmin")) or (dotted(x.func) or "").split(".")[-1] in ("min", "amin", "minimum", "nanmin")) and any(isinstance(y, ast.Call) and _is_gar(y) for y in ast.walk(x)):
+                red_max = False
     # the upper scale limit is the one used (second element of the returned pair)
     uses_upper = False
     for e in exprs:
@@ -835,6 +841,13 @@ def rule_r5(prog, res) -> None:
                                 checked += 1
                                 if sf != sa:
                                     res.violation("C01.R5", f, x, f"field {fld} of {ci.name} receives {unparse(a)}", key_extra=f"side-field-{ci.name}-{fld}")
+                # any function / constructor of the package whose parameters carry a side receives data of that side
+                for pn, a in named_args(x):
+                    sf, sa = _side(ast.Name(id=pn, ctx=ast.Load())), _side(a, senv)
+                    if sf and sa and not any(ci.is_dataclass for ci in tg.classes()):
+                        checked += 1
+                        if sf != sa:
+                            res.violation("C01.R5", f, x, f"parameter {pn} of {unparse(x.func)[:40]} receives {unparse(a)[:40]}: data of catalog {sorted(sa)} are recorded for catalog {sorted(sf)}", key_extra=f"side-param-{unparse(x.func)[-30:]}-{pn}")
                 if isinstance(x.func, ast.Attribute) and x.func.attr == "set_patch_pair":
                     checked += 1  # argument order is decided on the substituted call below (symbolic store)
                 if isinstance(x.func, ast.Attribute) and x.func.attr == "count" and isinstance(x.func.value, ast.Name) and _side(x.func.value, senv):
@@ -885,7 +898,7 @@ def rule_r5(prog, res) -> None:
             table = {}
             try:
                 for second in (False, True):
-                    env = {}
+                    env = {q.arg: "SOME" for q in a_.args if "catalog" in q.arg and q.arg not in optional}
                     for q in optional:
                         env[q] = "SOME" if second else None
                     if var:
@@ -899,6 +912,23 @@ def rule_r5(prog, res) -> None:
                 res.ok("C01.R5", res.site(m, "auto flag"), f"`{name} = {unparse(vals[0])[:40]}`: true exactly without a second catalog")
             else:
                 res.violation("C01.R5", m, vals[0], f"the auto flag `{name} = {unparse(vals[0])[:50]}` is {table[False]} without and {table[True]} with a second catalog: an autocorrelation is counted as a cross-correlation (every unordered pair twice, no halved diagonal) or the reverse", key_extra=f"auto-flag-definition-{m.name}")
+    # … and it is handed on: every callee of the linkage class that declares an `auto` parameter is given the flag (left
+    # to its default, the container of an autocorrelation is built as one of a cross-correlation)
+    n_handed = 0
+    for m in prog.find_class("PatchLinkage").methods.values():
+        for c in calls_in(m):
+            tg = prog.resolve_call(m, c)
+            if not tg.precise:
+                continue
+            callees = [t for t in list(tg.funcs()) + [prog.find_method(ci, "__init__") for ci in tg.classes()] if t is not None]
+            if callees and all("auto" in t.param_names() for t in callees):
+                n_handed += 1
+                if not any(pn == "auto" for pn, _ in named_args(c)):
+                    res.violation("C01.R5", m, c, f"`{unparse(c.func)[:40]}` declares an `auto` parameter but {m.name} does not hand its auto flag on: an autocorrelation is stored / normalised as a cross-correlation", key_extra=f"auto-flag-not-handed-on-{unparse(c.func)[-30:]}")
+    if n_handed >= 3 and not [fd for fd in res.findings if fd.rule == "C01.R5" and "auto-flag-not-handed" in (fd.key or "")]:
+        res.ok("C01.R5", "auto flag handed on", f"{n_handed} calls of the linkage class to callees with an `auto` parameter bind it")
+    if n_handed < 3:
+        raise AnalysisError(f"C01.R5: only {n_handed} calls that take the auto flag found in the linkage class, minimum 3")
     if n_auto < 2:
         raise AnalysisError(f"C01.R5: only {n_auto} definitions of the auto flag found in the linkage class, minimum 2")
     cp = prog.func("PatchLinkage.count_pairs")
@@ -1314,6 +1344,36 @@ def rule_r9(prog, res) -> None:
         )
     if not problems:
         res.ok("C01.R9", "weighting resolution", "no optional configuration value reaches the grid arithmetic unguarded")
+    # the configured weighting reaches the count at all: the per-pair worker binds both weighting parameters of the
+    # tree count from the scale configuration (left to their defaults, every measurement is silently unweighted)
+    worker = prog.func("process_patch_pair")
+    cnt = prog.func("AngularTree.count")
+    res.touch(worker)
+    wparams = [q for q in cnt.param_names() if q.startswith("weight")]
+    if len(wparams) != 2:
+        raise AnalysisError(f"C01.R9: weighting parameters of AngularTree.count not recognised ({wparams})")
+    wpaths = symx.explore(prog, worker, inline=symx.inline_private_helpers(prog), skip_tests=("logger",))
+    sites = [ev for p in wpaths for ev in p.calls("count") if cnt in prog.resolve_call(worker, ev.node).funcs() or cnt in _resolve_ev(prog, ev)]
+    if not sites:
+        raise AnalysisError("C01.R9: the tree count of the per-pair worker was not found")
+    source = {"scale": "rweight", "res": "resolution"}
+    for ev in sites:
+        for q in wparams:
+            a = kwarg(ev.expr, q)
+            want = source.get(q.split("_")[-1])
+            if a is None:
+                res.violation("C01.R9", worker, ev.node, f"the tree count is called without `{q}`: the configured separation weighting never reaches the count and every pair weighs one", key_extra=f"weighting-not-forwarded-{q}")
+            elif want and not symx.mentions(a, lambda y, w=want: isinstance(y, ast.Attribute) and y.attr == w):
+                res.violation("C01.R9", worker, ev.node, f"`{q}` of the tree count is bound to `{unparse(a)[:50]}`, not to the configured `{want}`", key_extra=f"weighting-source-{q}")
+            else:
+                res.ok("C01.R9", res.site(worker, f"count({q}=…)"), f"bound to the configured `{want}`")
+
+
+def _resolve_ev(prog, ev) -> list:
+    try:
+        return list(prog.resolve_call(ev.fi, ev.node).funcs()) if getattr(ev, "fi", None) is not None else []
+    except Exception:  # noqa: BLE001
+        return []
 
 
 def _elem_source(e: ast.AST) -> ast.AST:
